@@ -172,19 +172,28 @@ template <class V, class KK, class C> static bool same_slice(const Sparse<V, C> 
 }
 
 // ---------------------------------------------------------------- the real readers
+// The readers take their OUTPUT containers by reference; callers load chunk after chunk into the same vectors, so the
+// containers may hold earlier content (any size) on entry.  Every call below therefore starts from stale, non-zero content
+// of a rotating size (empty / shorter / much longer than the result); the results must not depend on it.
+static unsigned g_stale = 0;
+template <class T> static void stale(std::vector<T> &v) { static const size_t sz[] = { 0, 5, 257, 2 }; v.assign(sz[g_stale++ % 4], T(3)); }
 template <class V> static bool real_mm_sparse(Sparse<V> &A, long b, long e, bool *sym = nullptr) {
+    stale(A.ptr); stale(A.col); stale(A.val);
     try { amgcl::io::mm_reader rd(case_path()); if (sym) *sym = rd.is_symmetric(); std::tie(A.n, A.m) = rd(A.ptr, A.col, A.val, b, e); return true; }
     catch (const std::exception &) { return false; }
 }
 template <class V> static bool real_mm_dense(Dense_<V> &D, long b, long e) {
+    stale(D.val);
     try { amgcl::io::mm_reader rd(case_path()); std::tie(D.n, D.m) = rd(D.val, b, e); return true; }
     catch (const std::exception &) { return false; }
 }
 template <class V, class C> static bool real_bin_crs(Sparse<V, C> &A, long b, long e) {
+    stale(A.ptr); stale(A.col); stale(A.val);
     try { amgcl::io::read_crs(case_path(), A.n, A.ptr, A.col, A.val, b, e); return true; }
     catch (const std::exception &) { return false; }
 }
 template <class V> static bool real_bin_dense(Dense_<V> &D, long b, long e) {
+    stale(D.val);
     try { amgcl::io::read_dense(case_path(), D.n, D.m, D.val, b, e); return true; }
     catch (const std::exception &) { return false; }
 }
